@@ -60,6 +60,10 @@ func (t *Trace) Emit(ev Obj) {
 		}
 		t.w.Write(b)
 		t.w.WriteByte('\n')
+		if ev["ev"] == "SyncStart" || ev["ev"] == "Hook" || ev["ev"] == "Reset" {
+			// a panic on a goroutine the controller spawned kills the process: keep the file current
+			t.w.Flush()
+		}
 	} else {
 		t.events = append(t.events, ev)
 	}
